@@ -7,6 +7,7 @@ import (
 	"errors"
 	"fmt"
 	"sort"
+	"strings"
 
 	"github.com/miekg/dns"
 
@@ -140,6 +141,32 @@ type world struct {
 	// strict RFC 4648 way (a string that does not decode is not a signature / key at all)
 	SigText *string
 	KeyText *string
+	// raw spellings of names for the library side (octets >= 0x80 written as they are instead of
+	// \DDD); the label fields above always hold what the text denotes
+	KeyOwnerText *string
+	SigOwnerText *string
+	SignerText   *string
+}
+
+// rawEsc is the presentation form with octets >= 0x80 left raw (a legal spelling: the escape is
+// only needed for octets that are special or unprintable in ASCII).
+func rawEsc(n wm.Name) string {
+	if len(n) == 0 {
+		return "."
+	}
+	var sb strings.Builder
+	for _, l := range n {
+		for _, b := range l {
+			switch {
+			case b >= 0x80:
+				sb.WriteByte(b)
+			default:
+				sb.WriteString(wm.EscLabel([]byte{b}))
+			}
+		}
+		sb.WriteByte('.')
+	}
+	return sb.String()
 }
 
 func (w world) clone() world {
@@ -293,6 +320,13 @@ func (w world) libSet() ([]dns.RR, error) {
 }
 
 func (w world) libKey() *dns.DNSKEY {
+	if w.KeyOwnerText != nil {
+		x := w
+		x.KeyOwnerText = nil
+		k := x.libKey()
+		k.Hdr.Name = *w.KeyOwnerText
+		return k
+	}
 	if w.KeyText != nil {
 		return &dns.DNSKEY{Hdr: dns.RR_Header{Name: wm.EscName(w.KeyOwner), Rrtype: dns.TypeDNSKEY, Class: w.KeyClass, Ttl: 3600},
 			Flags: w.KeyFlags, Protocol: w.KeyProto, Algorithm: w.KeyAlg, PublicKey: *w.KeyText}
@@ -302,6 +336,18 @@ func (w world) libKey() *dns.DNSKEY {
 }
 
 func (w world) libSig() *dns.RRSIG {
+	if w.SigOwnerText != nil || w.SignerText != nil {
+		x := w
+		x.SigOwnerText, x.SignerText = nil, nil
+		r := x.libSig()
+		if w.SigOwnerText != nil {
+			r.Hdr.Name = *w.SigOwnerText
+		}
+		if w.SignerText != nil {
+			r.SignerName = *w.SignerText
+		}
+		return r
+	}
 	if w.SigText != nil {
 		x := w
 		x.SigText = nil
